@@ -26,6 +26,7 @@ CONSTANTS
     MaxFaults,   \* how many transport faults the environment may inject
     Serve,       \* "full" = model serveChannel + read loop from the start; "pre" = channel already active, reader parked in Read
     Reads,       \* number of transport reads that succeed before the peer goes silent
+    ReadCloses,  \* set of read numbers at which the inbound handler calls Close("h1") from inside the read loop
     TrackBufs,   \* TRUE = model packet buffers, pool recycling and other pool users (C10)
     CloneOnWrite,\* TRUE = the write entry points copy the caller's bytes into a pooled packet (as the code does)
     RecycleLate, \* TRUE = packet buffers go back to the pool only after Writev returned (as the code does)
@@ -680,14 +681,18 @@ RCheck ==
 TRead ==
     /\ pc["R"] = "t.read"
     /\ NoFinish
-    /\ UNCHANGED <<stack, queue, waitq, running, closed, closeErr, werr, ctxDone, tclosed, tcloses,
-                   tlog, flushed, batch, nexts, mutex, mwait, polls, carg, inactives, actives,
+    /\ LET closing == ~tclosed /\ readsLeft > 0 /\ (reads + 1) \in ReadCloses IN
+       /\ stack' = IF closing THEN [stack EXCEPT !["R"] = <<"r.check">> \o @] ELSE stack
+       /\ carg' = IF closing THEN [carg EXCEPT !["R"] = "h1"] ELSE carg
+    /\ UNCHANGED <<queue, waitq, running, closed, closeErr, werr, ctxDone, tclosed, tcloses,
+                   tlog, flushed, batch, nexts, mutex, mwait, polls, inactives, actives,
                    faults, cancelled, acc, begun, before, accAtClose, closeRet, lateBegun, drainedOK, fatal, pooled, dirty, corrupt>>
     /\ IF tclosed
        THEN /\ pc' = PcAfter(One("R", "r.check")) /\ UNCHANGED <<reads, readsLeft, rinflight>>
        ELSE IF readsLeft > 0
             THEN /\ readsLeft' = readsLeft - 1 /\ reads' = reads + 1 /\ UNCHANGED rinflight
-                 /\ pc' = PcAfter(One("R", "r.check"))
+                 \* the handler that received the message may close the channel itself (Close from a handler)
+                 /\ pc' = PcAfter(One("R", IF (reads + 1) \in ReadCloses THEN "c.cas" ELSE "r.check"))
             ELSE /\ pc' = PcAfter(One("R", "r.blocked")) /\ rinflight' = 1
                  /\ UNCHANGED <<reads, readsLeft>>
 
